@@ -1,6 +1,7 @@
 import MakoModel.Basic.Wire
 import MakoModel.Printer.Model
 import MakoModel.Printer.Codegen
+import MakoModel.Generated.TbCfg
 /-!
 Driver handler of the printer / line-map model: op `printer`.
 
@@ -76,7 +77,7 @@ def handleTb : List String → Option String
     let nt ← nt.toNat?
     -- template line `i` is represented by the one-character string with code point `i`
     let lines : List Str := (List.range nt).map fun i => [Char.ofNat (i + 1)]
-    let registry : Tb.Registry := if reg then [(['m'], ⟨fm, lines, ['t']⟩)] else []
+    let registry : Tb.Registry := if reg then [(['m'], ⟨fm, lines, ['t'], []⟩)] else []
     let f : Tb.Frame := ⟨['m'], ln, ['f'], ['l']⟩
     match Tb.rewrite registry f with
     | none => pure "err"
@@ -205,8 +206,22 @@ def handlePlan : List String → Option String
       (match st with | .regen => "regen" | .load => "load") ++ ":" ++ encPhase ph)
   | _ => none
 
+/-- `printer srcs <A|B|C|p> …` (cache variant = the regenerated `TbCfg.modsCacheKeepsSource`): the source attached to each record; templates A, B, C are registered with
+    the sources `a`, `b`, `c`; `p` is a plain frame.  Answer: one of `a b c n` per frame. -/
+def handleSrcs (toks : List String) : Option String := do
+  let keeps := Generated.TbCfg.modsCacheKeepsSource
+  let reg : Tb.Registry := [(['A'], ⟨[1], [], ['A'], ['a']⟩), (['B'], ⟨[1], [], ['B'], ['b']⟩),
+                            (['C'], ⟨[1], [], ['C'], ['c']⟩)]
+  let fs ← toks.mapM fun t =>
+    if t == "p" then some (Tb.Frame.mk ['p'] 1 [] []) else
+    if t == "A" || t == "B" || t == "C" then some (Tb.Frame.mk t.toList 1 [] []) else none
+  pure <| " ".intercalate ((Tb.recordSources keeps reg fs).map fun
+    | none => "n"
+    | some s => String.ofList s)
+
 def handle : Handler
   | "run" :: toks => handleRun toks
+  | "srcs" :: toks => handleSrcs toks
   | "plan" :: rest => handlePlan rest
   | "emitall" :: toks => handleEmitAll toks
   | "tb" :: rest => handleTb rest
